@@ -135,6 +135,9 @@ def ctxTokens (ctx : String) (t : Token) : Option (List Token) :=
   | "mid" => some [tt, t, .or, ff]
   | "list" => some [ff, .comma, t, tt]
   | "gparen" => some [.lparen, t, .rparen]
+  | "aftertype" => some [.test (.type [.file]), t]
+  | "beforetype" => some [t, .test (.type [.directory])]
+  | "afteruid" => some [.test (.userId (.eq 0)), t]
   | "long" => some (List.replicate 60 tt ++ [t, .or, ff])
   | "tab" => some [tt, t]
   | "deep" => some (List.replicate 20 .lparen ++ [t] ++ List.replicate 20 .rparen)
@@ -621,7 +624,21 @@ def checkC16 (obs : String) : Option String :=
               some ("printer-not-a-single-critical-section " ++ String.ofList n)
             else none
           | _ => if isPrefix (cl!"%lf3:print:") n then some ("printer-not-a-single-critical-section " ++ String.ofList n) else none
-        bad
+        match bad with
+        | some b => some b
+        | none =>
+          -- plain mode carries terminated lines only: a printer without terminator must be fed newline-ended text
+          let bare : List Text := p.bindings.filterMap fun (n, ini) =>
+            match ini with
+            | .list [.sym mp, _, _, .bool false] => if mp = cl!"make-printer" then some n else none
+            | _ => none
+          (Scheme.sublists p.body).findSome? fun l =>
+            match l with
+            | [.sym pr, .list (.sym fm :: .bool false :: .str tmpl :: _)] =>
+              if bare.any (· = pr) && fm = cl!"format" && tmpl.getLast? ≠ some '\n' then
+                some ("unterminated-record-in-plain-mode " ++ String.ofList pr)
+              else none
+            | _ => none
   | .panic stg => some ("panic " ++ stg)
   | _ => none
 
